@@ -1301,6 +1301,7 @@ impl World {
             }
             Op::Checkpoint { .. } => {}
             Op::Restart { .. } => {}
+            Op::DtMap { .. } => {}
             Op::Reparse { doc } => {
                 let text = self.real.docs[*doc].text.clone();
                 let expanded = self.real.docs[*doc].expanded;
